@@ -6,8 +6,18 @@
 (*                   if err != nil { return nil }     first (iterator.go:234),  *)
 (*                   cache.PushBack(item) }            then Remove-else-Wait     *)
 (*   Shutdown: pipe.Close()                            (after the context ended) *)
-(*   Cleanup:  ParallelForEach(cache.PopIterator(), job, continue-on-error)      *)
+(*   Cleanup:  ParallelForEach(cache.PopIterator(), job, continue-on-error,      *)
+(*             continue-on-panic, one worker per CPU)                           *)
 (*             (after Run and Shutdown returned - C10)                           *)
+(*                                                                            *)
+(* The shutdown pool (iterator.go:560-599): every worker repeats "context      *)
+(* ended? -> stop; pop the next job; run it; hand the processor's result to     *)
+(* CanContinueOnError (opts.go:81-111)".  A plain error or a panic is recorded  *)
+(* and the worker continues; an error that wraps io.EOF or a context error is   *)
+(* a stop signal: not recorded, the worker stops and cancels the group.  The    *)
+(* processor of Cleanup therefore records the job's result itself and returns   *)
+(* nil (Collect = TRUE, implementations.go:211-215); Collect = FALSE is the     *)
+(* processor that returns the job's error and leaves it to the group.           *)
 (*                                                                            *)
 (* External: queue.Add(job) by the client, cancelling the context.  FixDrain =  *)
 (* FALSE is the code as pinned; TRUE is the code with                           *)
@@ -16,16 +26,31 @@
 (***************************************************************************)
 EXTENDS Integers, Sequences, FiniteSets, TLC
 
-CONSTANTS Jobs, FixDrain
+CONSTANTS Jobs, FixDrain,
+          Procs,     \* the workers of the shutdown pool
+          Outcomes,  \* subset of {"ok", "fail", "stop"}: nil / plain error or panic / error wrapping io.EOF or a context error
+          Collect    \* the processor records the job's error itself and returns nil
 
 VARIABLES toadd, queue, cache, closed, ctxDone, accepted, ran,
           rpc,   \* Run: "off" | "check" | "pop" | "wait" | "ret"
           spc,   \* Shutdown goroutine: "off" | "waitctx" | "done"
-          cpc    \* Cleanup: "off" | "run" | "done"
-vars == <<toadd, queue, cache, closed, ctxDone, accepted, ran, rpc, spc, cpc>>
+          cpc,   \* Cleanup: "off" | "run" | "done"
+          out,   \* job -> its outcome
+          wk,    \* worker -> "idle" | "gone" | the job it runs
+          gcan,  \* the group's context has been cancelled by a worker that stopped
+          errs   \* jobs whose failure reached the collector that Wait() resolves
+vars == <<toadd, queue, cache, closed, ctxDone, accepted, ran, rpc, spc, cpc, out, wk, gcan, errs>>
+pool == <<out, wk, gcan, errs>>
+
+\* jobs are interchangeable: outcome assignments up to renaming (sorted along the job names)
+OutOrd == <<"ok", "fail", "stop">>
+NameOrd == <<"j1", "j2", "j3", "j4">>
+Idx(s, x) == CHOOSE i \in 1..Len(s) : s[i] = x
+Sorted(o) == \A x, y \in Jobs : Idx(NameOrd, x) < Idx(NameOrd, y) => Idx(OutOrd, o[x]) <= Idx(OutOrd, o[y])
 
 Init == /\ toadd = Jobs /\ queue = <<>> /\ cache = <<>> /\ closed = FALSE /\ ctxDone = FALSE
         /\ accepted = {} /\ ran = [j \in Jobs |-> 0] /\ rpc = "off" /\ spc = "off" /\ cpc = "off"
+        /\ out \in {o \in [Jobs -> Outcomes] : Sorted(o)} /\ wk = [p \in Procs |-> "idle"] /\ gcan = FALSE /\ errs = {}
 
 Range(s) == {s[i] : i \in 1..Len(s)}
 
@@ -33,37 +58,52 @@ Range(s) == {s[i] : i \in 1..Len(s)}
 Add(j) == /\ j \in toadd /\ toadd' = toadd \ {j}
           /\ IF closed THEN UNCHANGED <<queue, accepted>>
                        ELSE queue' = Append(queue, j) /\ accepted' = accepted \cup {j}
-          /\ UNCHANGED <<cache, closed, ctxDone, ran, rpc, spc, cpc>>
+          /\ UNCHANGED <<cache, closed, ctxDone, ran, rpc, spc, cpc, pool>>
 Start == /\ rpc = "off" /\ rpc' = "check" /\ spc' = "waitctx"
-         /\ UNCHANGED <<toadd, queue, cache, closed, ctxDone, accepted, ran, cpc>>
+         /\ UNCHANGED <<toadd, queue, cache, closed, ctxDone, accepted, ran, cpc, pool>>
 Cancel == /\ ~ctxDone /\ ctxDone' = TRUE
-          /\ UNCHANGED <<toadd, queue, cache, closed, accepted, ran, rpc, spc, cpc>>
+          /\ UNCHANGED <<toadd, queue, cache, closed, accepted, ran, rpc, spc, cpc, pool>>
 External == Start \/ Cancel \/ \E j \in Jobs : Add(j)
 
 (* Internal *)
 \* ReadOne: if err = ctx.Err(); err != nil { return }
 RCheck == /\ rpc = "check" /\ rpc' = IF ctxDone THEN "ret" ELSE "pop"
-          /\ UNCHANGED <<toadd, queue, cache, closed, ctxDone, accepted, ran, spc, cpc>>
+          /\ UNCHANGED <<toadd, queue, cache, closed, ctxDone, accepted, ran, spc, cpc, pool>>
 Take == cache' = Append(cache, Head(queue)) /\ queue' = Tail(queue) /\ rpc' = "check"
 \* Distributor pop: Remove, else Wait(ctx)
 RPop == /\ rpc = "pop"
         /\ IF queue # <<>> THEN Take ELSE rpc' = "wait" /\ UNCHANGED <<queue, cache>>
-        /\ UNCHANGED <<toadd, closed, ctxDone, accepted, ran, spc, cpc>>
+        /\ UNCHANGED <<toadd, closed, ctxDone, accepted, ran, spc, cpc, pool>>
 \* Queue.Wait: an item wins; else closed or ctx ended -> error -> Run returns
 RWait == /\ rpc = "wait" /\ (queue # <<>> \/ closed \/ ctxDone)
          /\ IF queue # <<>> THEN Take ELSE rpc' = "ret" /\ UNCHANGED <<queue, cache>>
-         /\ UNCHANGED <<toadd, closed, ctxDone, accepted, ran, spc, cpc>>
+         /\ UNCHANGED <<toadd, closed, ctxDone, accepted, ran, spc, cpc, pool>>
 Shut == /\ spc = "waitctx" /\ ctxDone /\ closed' = TRUE /\ spc' = "done"
-        /\ UNCHANGED <<toadd, queue, cache, ctxDone, accepted, ran, rpc, cpc>>
+        /\ UNCHANGED <<toadd, queue, cache, ctxDone, accepted, ran, rpc, cpc, pool>>
 \* Cleanup after Run and Shutdown returned
 CStart == /\ cpc = "off" /\ rpc = "ret" /\ spc = "done" /\ cpc' = "run"
           /\ IF FixDrain THEN cache' = cache \o queue /\ queue' = <<>> ELSE UNCHANGED <<cache, queue>>
-          /\ UNCHANGED <<toadd, closed, ctxDone, accepted, ran, rpc, spc>>
-CRun == /\ cpc = "run"
-        /\ IF cache = <<>> THEN cpc' = "done" /\ UNCHANGED <<cache, ran>>
-           ELSE ran' = [ran EXCEPT ![Head(cache)] = @ + 1] /\ cache' = Tail(cache) /\ UNCHANGED cpc
-        /\ UNCHANGED <<toadd, queue, closed, ctxDone, accepted, rpc, spc>>
-Internal == RCheck \/ RPop \/ RWait \/ Shut \/ CStart \/ CRun
+          /\ UNCHANGED <<toadd, closed, ctxDone, accepted, ran, rpc, spc, pool>>
+\* a worker: the context check comes first (Producer of the split, iterator.go:234), then the pop
+WTake(p) == /\ cpc = "run" /\ wk[p] = "idle"
+            /\ IF gcan \/ cache = <<>>
+                 THEN wk' = [wk EXCEPT ![p] = "gone"] /\ UNCHANGED <<cache, ran>>
+                 ELSE /\ wk' = [wk EXCEPT ![p] = Head(cache)] /\ cache' = Tail(cache)
+                      /\ ran' = [ran EXCEPT ![Head(cache)] = @ + 1]
+            /\ UNCHANGED <<toadd, queue, closed, ctxDone, accepted, rpc, spc, cpc, out, gcan, errs>>
+\* the job returns; the processor's result goes through CanContinueOnError
+WRet(p) == /\ cpc = "run" /\ wk[p] \in Jobs
+           /\ LET j == wk[p]
+              IN CASE out[j] = "ok"   -> wk' = [wk EXCEPT ![p] = "idle"] /\ UNCHANGED <<errs, gcan>>
+                   [] out[j] = "fail" -> wk' = [wk EXCEPT ![p] = "idle"] /\ errs' = errs \cup {j} /\ UNCHANGED gcan
+                   [] out[j] = "stop" -> IF Collect
+                                           THEN wk' = [wk EXCEPT ![p] = "idle"] /\ errs' = errs \cup {j} /\ UNCHANGED gcan
+                                           ELSE wk' = [wk EXCEPT ![p] = "gone"] /\ gcan' = TRUE /\ UNCHANGED errs
+           /\ UNCHANGED <<toadd, queue, cache, closed, ctxDone, accepted, ran, rpc, spc, cpc, out>>
+\* wg.Operation().Block(): every worker has stopped
+CDone == /\ cpc = "run" /\ \A p \in Procs : wk[p] = "gone" /\ cpc' = "done"
+         /\ UNCHANGED <<toadd, queue, cache, closed, ctxDone, accepted, ran, rpc, spc, pool>>
+Internal == RCheck \/ RPop \/ RWait \/ Shut \/ CStart \/ CDone \/ \E p \in Procs : WTake(p) \/ WRet(p)
 Next == Internal \/ External
 Spec == Init /\ [][Next]_vars /\ WF_vars(Internal)
 
@@ -72,6 +112,8 @@ Quiescent == ~ENABLED Internal
 AtMostOnce == \A j \in Jobs : ran[j] <= 1 /\ (ran[j] = 1 => (ctxDone /\ j \in accepted))
 \* every function whose Add returned nil has run exactly once when the cleanup is over
 AllAcceptedRun == cpc = "done" => \A j \in accepted : ran[j] = 1
+\* ... and Wait() reports the failure of every one of them that failed
+AllSurfaced == cpc = "done" => \A j \in accepted : out[j] # "ok" => j \in errs
 \* once started and cancelled the service completes
 Completes == (Quiescent /\ rpc # "off" /\ ctxDone) => cpc = "done"
 Settles == <>[]Quiescent
